@@ -54,6 +54,11 @@ fn shape_xml(id: &str, kind: u8, b: &[f64; 4]) -> Vec<XEl> {
         4 => {
             // an instance of a rect defined in <defs>
             let mut d = XEl::new("defs");
+            // (one time in three the template holds the vertical position itself and the instance is moved along x only)
+            if ((y * 8.0) as i64).rem_euclid(3) == 0 {
+                d.kids.push(X::El(XEl::new("rect").a("id", format!("t{id}")).a("y", num(y)).a("width", num(w)).a("height", num(h))));
+                return vec![d, XEl::new("use").a("id", id).a("href", format!("#t{id}")).a("x", num(x))];
+            }
             d.kids.push(X::El(XEl::new("rect").a("id", format!("t{id}")).a("width", num(w)).a("height", num(h))));
             return vec![d, XEl::new("use").a("id", id).a("href", format!("#t{id}")).a("x", num(x)).a("y", num(y))];
         }
@@ -317,7 +322,9 @@ impl Property for C13 {
                 u
             } else if e.name == "use" {
                 // a <use> carries only its position; its size is that of the template it instantiates
-                BBox::xywh(fnum0(e, "x"), fnum0(e, "y"), want[2], want[3])
+                // (placed at its own x / y relative to where the template stands)
+                let (tx, ty) = tree.find_id(&format!("t{id}")).map(|t| (fnum0(t, "x"), fnum0(t, "y"))).unwrap_or((0.0, 0.0));
+                BBox::xywh(fnum0(e, "x") + tx, fnum0(e, "y") + ty, want[2], want[3])
             } else {
                 out_bbox(e)?
             };
